@@ -147,6 +147,7 @@ fn op_run(t: &[&str], alloc: bool) -> String {
     let req = RunReq {
         inputs,
         pend: options.pend,
+        from: t[0] == "RUNF",
         alloc,
     };
     gen::run_dispatch(t[1], writer, &req)
@@ -201,6 +202,8 @@ fn handle(line: &str) -> String {
     let t: Vec<&str> = line.split(' ').collect();
     match t[0] {
         "RUN" => op_run(&t, false),
+        // the inputs are pieces handed to `run_from`, the header path carried from piece to piece
+        "RUNF" => op_run(&t, false),
         "PROC" => op_proc(&t, false),
         // Harness only: heap allocations made inside `run` / `process`.
         "ALLOC" => match t.get(1).copied() {
